@@ -1,5 +1,6 @@
 (* Conversions between OCaml natives and the extracted Coq datatypes. *)
 open Model
+type string = Stdlib.String.t
 
 let rec pos_of_int (i : int) : positive =
   if i = 1 then XH else if i land 1 = 0 then XO (pos_of_int (i lsr 1)) else XI (pos_of_int (i lsr 1))
